@@ -340,20 +340,29 @@ class C03(props.Prop):
             # revisited input was written: add it to the chain as a virtual
             # adoption so that it is attributed like any other revisit
             v.probes['check_loops_fired'] += 1
-            last_ok = [c for c in rec.checks if c['verdict']]
-            virt = None
-            if last_ok:
-                prev_s = rec.writes[-1]['sdig'] if rec.writes else (
-                    rec.strategy_inputs[0][2] if rec.strategy_inputs else None)
+            # the adoption that made ddSMT stop is one of the candidates
+            # accepted since the last output write (a worker may have gone on
+            # and accepted others in the meantime)
+            since = rec.writes[-1]['seq0'] if rec.writes else -1
+            last_ok = [c for c in rec.checks
+                       if c['verdict'] and (c['seq1'] or 0) > since]
+            prev_s = rec.writes[-1]['sdig'] if rec.writes else (
+                rec.strategy_inputs[0][2] if rec.strategy_inputs else None)
+            for c in reversed(last_ok):
+                virt = None
                 for a in reversed(rec.applies):
-                    if len(a) > 7 and a[3] == last_ok[-1]['dig'] and a[
-                            7] == prev_s:
+                    if len(a) > 7 and a[3] == c['dig'] and a[7] == prev_s:
                         virt = {'dig': a[3], 'sdig': a[6], 'seq0': a[0],
                                 'completed': True, 'virtual': True,
                                 'actor': 'main'}
                         break
-            if virt is not None:
-                found = self.find_revisit(res, v, strat, rec.writes + [virt])
+                if virt is None:
+                    continue
+                trial = props.Verdict()
+                if self.find_revisit(res, trial, strat, rec.writes + [virt]):
+                    found = self.find_revisit(res, v, strat,
+                                              rec.writes + [virt])
+                    break
             if not found:
                 v.violate('revisit', 'C03:revisit:check-loops:unattributed',
                           'ddSMT\'s own loop checker fired: an input was '
